@@ -57,6 +57,10 @@ func init() {
 		for _, k := range []string{"DD", "DU", "UD", "FD", "DF"} {
 			p.Jobs = append(p.Jobs, Job{Harness: "gonnx.H_C13", Case: map[string]interface{}{"kinds": []string{k}, "sup": []int{2}, "init": []int{0}, "extra": 0, "mutate": 0, "bare": 0, "view": 1}})
 		}
+		// declarations of rank 9 and 10 with fixed dimensions on the last axes
+		for _, k := range []string{"DDDDDDDDF", "FDDDDDDDDF", "DDDDDDDFFF"} {
+			add([]string{k}, []int{len(k)}, []int{0}, 0, 0)
+		}
 		// two declared inputs
 		ks := kindStrings(maxRank2)
 		for _, a := range ks {
